@@ -364,6 +364,10 @@ class Text(JupyterMixin):
         copy_self._spans[:] = self._spans
         return copy_self
 
+    def __copy__(self) -> "Text":
+        # copy.copy() would share the lists that hold the characters and the spans
+        return self.copy()
+
     def stylize(
         self, style: Union[str, Style], start: int = 0, end: Optional[int] = None
     ) -> None:
